@@ -835,7 +835,9 @@ func TestVerifC14(t *testing.T) {
 			}
 			hw, ho := mk(true), mk(false)
 			ew, eo := &exch{addr: hw.addr}, &exch{addr: ho.addr}
-			for _, method := range []string{"GET", "HEAD"} {
+			// ("head", "Head": method names are case-sensitive tokens; these are extension methods,
+			// not HEAD, and their answers carry a body like any other)
+			for _, method := range []string{"GET", "HEAD", "head", "Head"} {
 				for _, status := range []int{200, 204, 301, 304, 404, 500} {
 					sizes := []int{0, L - 1, L, L + 1, L + 3}
 					if status == 204 || status == 304 {
